@@ -1172,7 +1172,9 @@ func (sc *serverConn) wroteFrame(res frameWriteResult) {
 
 	closeStream := endsStream(wm.write)
 
-	if _, ok := wm.write.(handlerPanicRST); ok {
+	if _, ok := wm.write.(handlerPanicRST); ok && st.state != stateClosed {
+		// the stream may already have been closed (by a RST_STREAM or a
+		// stream error from the peer) while the frame was being written
 		sc.closeStream(st, errHandlerPanicked)
 	}
 
